@@ -19,12 +19,14 @@ RULE = ("all directed graphs on 1 and 2 input object types with edge kind in {no
         "the emitted structs / enums must be acyclic; edges through Option, not through Box / Vec) and compiled by rustc; "
         "inhabited graphs get depth-3 recursive values that must round-trip unchanged. Fragment recursion patterns through "
         "object fields: self via field / list field, alias form and flatten form, mutual A->B->A, 3-cycles, recursion under an "
-        "inline fragment and through a union, with nested payloads. Non-trivial = graph with >= 1 cycle; distinct by graph")
+        "inline fragment and through a union, every ordered pair (and some triples) of recursive positions {field, list field, list of "
+        "lists, field one object down} inside one fragment, with nested payloads. Input type names in four styles (A, node_filter, "
+        "HTTPFilter, edgeInput) with and without normalization rust. Non-trivial = graph with >= 1 cycle; distinct by graph")
 
 KINDS = {"none": None, "T": lambda t: t, "T!": lambda t: NN(t), "[T]": lambda t: L(t), "[T!]!": lambda t: NN(L(NN(t)))}
 NULLABLE_KINDS = ["none", "T", "[T]"]
 EXTRA_KINDS = {"[[T]]": lambda t: L(L(t)), "[T]!": lambda t: NN(L(t)), "[T!]": lambda t: L(NN(t))}
-FLOOR = {"graphs": 1164, "graphs-with-cycle": 500, "rustc-accepted": 1100, "round-trips": 300, "fragment-patterns": 35, "prescreen-agrees": 1100}
+FLOOR = {"graphs": 1164, "graphs-with-cycle": 500, "rustc-accepted": 1100, "round-trips": 300, "fragment-patterns": 55, "prescreen-agrees": 1100}
 
 
 def graph_schema(names_, edges, one_of):
@@ -150,14 +152,23 @@ def prescreen(inspect):
     return None
 
 
-def graph_case(cid, ns, edges, one, rng, fmt="sdl"):
+NAME_STYLES = [None, {"A": "node_filter", "B": "edge_filter", "C": "page_input", "D": "sort_by"}, {"A": "HTTPFilter", "B": "IDInput", "C": "SMSOpts", "D": "URLSet"},
+               {"A": "nodeFilter", "B": "edgeInput", "C": "pageOpts", "D": "sortBy"}]
+
+
+def graph_case(cid, ns, edges, one, rng, fmt="sdl", style=0, rust=False):
+    if NAME_STYLES[style]:
+        m = NAME_STYLES[style]
+        ns = [m[n] for n in ns]
+        edges = {(m[a], m[b]): k for (a, b), k in edges.items()}
+        one = {m[n]: v for n, v in one.items()}
     s = graph_schema(ns, edges, one)
-    vs = [{"name": n.lower(), "type": T(n), "default": None} for n in ns]
+    vs = [{"name": "v_" + n.lower(), "type": T(n), "default": None} for n in ns]
     if len(ns) >= 2 and sum(ord(ch) for ch in cid) % 2 == 0:
         # only the first type is a variable: the others are reached through its fields only
         vs = vs[:1]
     doc = {"operations": [{"kind": "query", "name": "Q", "vars": vs, "sel": [["field", None, "x", None, None]]}], "fragments": []}
-    c = C.make_case(cid, s, doc, rng, options={}, fmt=fmt)
+    c = C.make_case(cid, s, doc, rng, options={"normalization": "rust"} if rust else {}, fmt=fmt)
     c["graph"] = {"types": ns, "edges": {"%s->%s" % k: v for k, v in edges.items() if v != "none"}, "one_of": [n for n in ns if one[n]]}
     c["cyclic"] = has_cycle(ns, edges)
     c["needs_box"] = needs_indirection(ns, edges)
@@ -221,6 +232,31 @@ def fragment_patterns(rng):
               [{"name": "T1", "on": "TT", "sel": [f("name"), f("o", [["spread", "T2"]])]}, {"name": "T2", "on": "OO", "sel": [f("k"), f("t", [["spread", "A"]])]},
                {"name": "A", "on": "TT", "sel": [f("id"), f("o", [["spread", "B"]])]}, {"name": "B", "on": "OO", "sel": [f("k", alias="kb"), f("third", [["spread", "C"]])]},
                {"name": "C", "on": "Third", "sel": [f("z"), f("t", [["spread", "A"]])]}]))
+    # ordered pairs and triples of recursive positions inside ONE fragment: non-list field, list field, list of lists, and a
+    # non-list field one object further down - a position behind a list needs no indirection, the next one may (and the other
+    # way round): whatever the analysis remembers from one position must not leak into the next
+    def pos(kind, alias=None):
+        if kind == "t":
+            return f("t", [["spread", "F"]], alias=alias)
+        if kind == "ts":
+            return f("ts", [["spread", "F"]], alias=alias)
+        if kind == "tss":
+            return f("tss", [["spread", "F"]], alias=alias)
+        return f("o", [f("k"), f("t", [["spread", "F"]])], alias=alias)
+    kinds = ["t", "ts", "tss", "o.t"]
+    for a in kinds:
+        for b in kinds:
+            P.append(("positions [%s, %s] in one recursive fragment" % (a, b), [f("t", [["spread", "F"]])],
+                      [{"name": "F", "on": "TT", "sel": [f("id"), pos(a), pos(b, alias="again" if a == b else None)]}]))
+    for trip in (("ts", "t", "ts"), ("t", "ts", "t"), ("tss", "o.t", "ts"), ("ts", "tss", "t"), ("o.t", "ts", "t")):
+        sel3, used = [f("id")], {}
+        for k in trip:
+            used[k] = used.get(k, 0) + 1
+            sel3.append(pos(k, alias=("again%d" % used[k]) if used[k] > 1 else None))
+        P.append(("positions %s in one recursive fragment" % list(trip), [f("t", [["spread", "F"]])], [{"name": "F", "on": "TT", "sel": sel3}]))
+    # the same through an operation that enters the fragment behind a list
+    P.append(("entered behind a list, positions [ts, t]", [f("t", [f("ts", [["spread", "F"]])])],
+              [{"name": "F", "on": "TT", "sel": [f("id"), pos("ts"), pos("t")]}]))
     # every pattern also with its fragment definitions in reverse and in shuffled order (visit order of the analysis)
     for (label, sel, frags) in list(P):
         if len(frags) >= 2:
@@ -247,7 +283,8 @@ def main(run):
     rng = run.rng
     graphs = enumerate_graphs()
     run.exhaustive = True
-    cases = [graph_case("g%d" % i, ns, e, one, rng, fmt="sdl" if i % 3 else "json") for i, (ns, e, one) in enumerate(graphs)]
+    # every graph once; the naming style of the types and the normalization option cycle with the index (8 combinations)
+    cases = [graph_case("g%d" % i, ns, e, one, rng, fmt="sdl" if i % 3 else "json", style=(i // 2) % 4, rust=(i % 2 == 1)) for i, (ns, e, one) in enumerate(graphs)]
     # random graphs on 3-4 types
     allk = list(KINDS) + list(EXTRA_KINDS)
     for i in range(run.size(120, 2400)):
@@ -260,7 +297,7 @@ def main(run):
                 if rng.random() < 0.4:
                     ks = [k for k in allk if not (one[a] and k.endswith("!"))]
                     edges[(a, b)] = rng.choice(ks)
-        cases.append(graph_case("r%d" % i, ns, edges, one, rng, fmt=rng.choice(["sdl", "json"])))
+        cases.append(graph_case("r%d" % i, ns, edges, one, rng, fmt=rng.choice(["sdl", "json"]), style=rng.randrange(4), rust=rng.random() < 0.5))
     frs = fragment_patterns(rng)
     cases += frs
     cases += hazards.cases_for(run, "C12")
